@@ -12,6 +12,7 @@ import NetflowModel.Props.C05
 import NetflowModel.Props.C06
 import NetflowModel.Props.C06Refine
 import NetflowModel.Props.C07
+import NetflowModel.Props.C07b
 import NetflowModel.Props.C08
 import NetflowModel.Props.C09
 import NetflowModel.Props.C10
@@ -22,3 +23,4 @@ import NetflowModel.Props.C14
 import NetflowModel.Props.C15
 import NetflowModel.Props.C16
 import NetflowModel.Props.C17
+import NetflowModel.Props.C17b
